@@ -7,7 +7,10 @@ Local Open Scope N_scope.
 
 Lemma class_ok_exec : class_ok alpha_exec alnum_exec.
 Proof.
+  (* decided on all 128 ASCII code points by computation (LexRelexDefs.ascii_all_spec) *)
   split; intros c H L.
-  - unfold alpha_exec, alpha_ranges, in_ranges in H. chr_unfold. b2p. lia.
-  - unfold alnum_exec, alpha_exec, alpha_ranges, numeric_ranges, in_ranges in H. chr_unfold. b2p. lia.
+  - pose proof (ascii_all_spec (fun c => implb (alpha_exec c) (ascii_alpha c)) ltac:(vm_compute; reflexivity) c L) as X.
+    cbv beta in X. rewrite H in X. exact X.
+  - pose proof (ascii_all_spec (fun c => implb (alnum_exec c) (ascii_alnum c)) ltac:(vm_compute; reflexivity) c L) as X.
+    cbv beta in X. rewrite H in X. exact X.
 Qed.
